@@ -54,7 +54,8 @@ ASSUMPTIONS = [
     'which code a malformed input gets is not checked (C08/C10)',
     f'work bound: Python call events <= {target.COST_A} + {target.COST_B} * len(body) (qa corpus fits 650 + 60 * len; at least 10x slack on both) and stack depth <= {target.DEPTH_MAX} '
     '(deepest qa message 23 frames: room for about 95 attributes of per-attribute recursion); a decode is abandoned at six times the bound; '
-    'wall time is not an oracle, except a 60 s watchdog that reports a decode which makes no call at all and never returns',
+    'wall time is not an oracle, except a 20 CPU-second watchdog that reports a decode which makes no call at all and never returns; '
+    'the enumerated engines measure calls, depth and inner objects on one case in four (sweep) or eight (registry) and the calls alone on the others; after three abandoned decodes a shard skips its remaining cases',
     'valid-unusual with repeated unknown attribute codes: RFC 7606 3.g keeps the first and discards the rest, RFC 4271 6.3 allowed 3/1; both are accepted, any other refusal is a violation',
     'an exception other than Notify inside Message.unpack would be answered 1/0 by the catch-all of read_message (signature prefix decode:), one raised while the '
     'decoded message is rendered escapes read_message (prefix render:); both break the property',
@@ -80,7 +81,8 @@ def addpath_for(neg: int):
 # ---------------------------------------------------------------------------- the shared check
 
 
-WATCHDOG_S = 60
+WATCHDOG_S = 20  # CPU seconds
+_WEDGED = [0]  # decodes abandoned in this process (work budget or watchdog)
 
 
 class _Stuck(BaseException):
@@ -95,17 +97,16 @@ def guarded(msg_type: int, body: bytes, neg: int, metered: bool = True) -> tuple
     """target.measured under a last-resort watchdog: the work bound abandons a loop that makes calls, this one a loop that makes none"""
     import signal
 
-    previous = signal.signal(signal.SIGALRM, _alarm)
-    signal.setitimer(signal.ITIMER_REAL, WATCHDOG_S)
+    previous = signal.signal(signal.SIGVTALRM, _alarm)
+    signal.setitimer(signal.ITIMER_VIRTUAL, WATCHDOG_S)
     try:
-        if not metered:
-            return target.decode_and_force(msg_type, body, target.negotiated_for(neg)), None
-        return target.measured(msg_type, body, target.negotiated_for(neg))
+        # metered = calls, stack depth and inner objects; otherwise the calls only (the work budget applies to every case)
+        return target.measured(msg_type, body, target.negotiated_for(neg), light=not metered)
     except _Stuck:
-        return ('violation', 'no-termination:watchdog', f'still decoding after {WATCHDOG_S} s'), None
+        return ('violation', 'no-termination:watchdog', f'still decoding after {WATCHDOG_S} s of CPU'), target.Meter(light=True)
     finally:
-        signal.setitimer(signal.ITIMER_REAL, 0)
-        signal.signal(signal.SIGALRM, previous)
+        signal.setitimer(signal.ITIMER_VIRTUAL, 0)
+        signal.signal(signal.SIGVTALRM, previous)
 
 
 def judge(case: dict, expect_ok: bool = False, accept: tuple = ()) -> dict:
@@ -114,7 +115,12 @@ def judge(case: dict, expect_ok: bool = False, accept: tuple = ()) -> dict:
     body = bytes.fromhex(case['hex']) if 'hex' in case else case['_body']
     body = body[: target.msg_size(neg) - 19]
     metered = case.get('meter', True) is not False
+    if _WEDGED[0] >= 3:
+        # three decodes were already abandoned in this process (each reported): the rest is not worth a budget's worth of CPU per case
+        return {'nontrivial': False, 'classes': ['skipped:decoder-already-wedged-3-times']}
     outcome, meter = guarded(msg_type, body, neg, metered)
+    if outcome[0] == 'violation' and outcome[1].split(':')[0] in ('cost', 'no-termination'):
+        _WEDGED[0] += 1
     classes = [f'type:{msg_type if msg_type in (1, 2, 3, 4, 5, 6) else "unknown"}', f'neg:{target.NEG_NAMES[neg]}']
     shown = body.hex() if len(body) <= 600 else f'{body[:300].hex()}...({len(body)} bytes)'
     where = f'type {msg_type} neg {neg}:{target.NEG_NAMES[neg]} body {shown}'
@@ -122,7 +128,7 @@ def judge(case: dict, expect_ok: bool = False, accept: tuple = ()) -> dict:
         if target.tolerated(outcome[1]):
             return {'nontrivial': False, 'classes': classes + [f'tolerated:{outcome[1]}']}
         raise Violation(outcome[1], f'{outcome[2]} for {where}')
-    bad = target.cost_violation(meter, len(body)) if meter is not None else None
+    bad = target.cost_violation(meter, len(body))
     if bad:
         # a first execution pays for lazy imports: measure again before believing it
         outcome, meter = guarded(msg_type, body, neg)
@@ -141,8 +147,8 @@ def judge(case: dict, expect_ok: bool = False, accept: tuple = ()) -> dict:
     else:
         label = f'ok:{outcome[1]}'
     classes.append(label)
-    if meter is None:
-        classes.append('unmetered')
+    if meter.light:
+        classes.append('calls-only')
         return {'nontrivial': outcome[0] == 'ok', 'classes': classes}
     classes.append('inner-objects:' + ('0' if meter.inner == 0 else '1-9' if meter.inner < 10 else '10-99' if meter.inner < 100 else '100+'))
     classes.append('depth:' + ('<=25' if meter.max_depth <= 25 else '<=60' if meter.max_depth <= 60 else '>60'))
@@ -550,7 +556,7 @@ def sweep_cases() -> list:
             old = body[pos]
             values = {0, 1, 0x7F, 0x80, 0xFF, (old + 1) & 255, (old - 1) & 255, old ^ 0x80, (old * 2) & 255, old // 2} if thorough else {0, 0x80, 0xFF, (old + 1) & 255, (old - 1) & 255}
             for value in sorted(values - {old}):
-                # the work bound is measured on one case in four (a changed byte does not add TLVs); the others run without the meter
+                # calls, depth and inner objects on one case in four (a changed byte does not add TLVs); the calls alone on the others
                 out.append({'type': m['type'], 'neg': neg, 'hex': (body[:pos] + bytes([value]) + body[pos + 1 :]).hex(), 'mode': 'sweep', 'meter': len(out) % 4 == 0})
         # every TLV cut down to its first 1, 2, 3, ... bytes with all the lengths around it repaired: each decoder sees a value too short for its type
         seen = set()
@@ -657,6 +663,9 @@ def check_campaign(case: dict) -> dict:
             replayed = None
         except Violation as v:
             replayed = v.signature
+        if sig.startswith('no-termination') and replayed and replayed.split(':')[0] in ('cost', 'no-termination'):
+            # the fuzz target has only its CPU watchdog; the check names the same defect by its work bound
+            sig = f['signature'] = replayed
         if replayed != sig and not target.tolerated(sig):
             classes.append('atheris:finding-does-not-replay')
             raise Violation('atheris:finding-does-not-replay', f'{sig} replays as {replayed}: {json.dumps(f["case"])}')
